@@ -16,8 +16,8 @@ times_mono times_strictMono times_mem_Icc times_append_left times_append_right t
 arbUcurr_entries arbIdx_eq arbIdx_eq_zero propagatorAtArbT_spec propagatorAtArbT_spec_zero
 propagatorAtArbT_at_zero propagatorAtArbT_edge segment_start_value propagatorAtArbT_beyond
 propagatorAtArbT_isSome propagatorAtArbT_is_exp propagatorAtArbT_hasDerivAt
-propagatorAtArbT_tendsto_right source_shape'''.split()
-PINS = ['pinDiagonalize', 'pinPropagatorAtArbT', 'pinConcatenate']
+propagatorAtArbT_tendsto_right '''.split()
+PINS = ['pinDiagonalize', 'pinPropagatorAtArbT', 'pinConcatenate', 'C02_source_shape']
 GEN_SITES = ['einsum:numeric_diagonalize_0', 'einsum:pulse_sequence_PulseSequence_diagonalize_0',
              'einsum:pulse_sequence_PulseSequence_propagator_at_arb_t_0']
 COMPONENTS = ['hamiltonian', 'diagonalize', 'times', 'propagator_at_arb_t']
@@ -204,6 +204,8 @@ def check_composed_propagators(ctx, case):
         elif k == 3:
             p.cache_filter_function(om)
             p.cleanup('conservative')
+        elif k == 4:
+            p.t, p.tau          # only the time grid has been read
         return p
 
     def ref(p):
@@ -232,10 +234,27 @@ def check_composed_propagators(ctx, case):
             probs.append((what, 'propagators', float(np.max(np.abs(Q - R)))))
         if not np.array_equal(p.total_propagator, Q[-1]):
             probs.append((what, 'total propagator is not the last cumulative propagator', 0.0))
+        # times and duration of the composed pulse; propagators at arbitrary times (edges, both sides)
+        t = np.concatenate(([0.0], np.cumsum(p.dt)))
+        if not (np.shape(p.t) == t.shape and np.allclose(p.t, t, rtol=1e-12, atol=1e-14)
+                and np.isclose(p.tau, t[-1], rtol=1e-12) and np.isclose(p.duration, t[-1], rtol=1e-12)):
+            probs.append((what, 'times / tau / duration are not the cumulative sums of dt', 0.0))
+        else:
+            xs = np.concatenate((t, np.nextafter(t[1:], -np.inf), np.nextafter(t[:-1], np.inf),
+                                 rng.random(3)*t[-1]))
+            xs = xs[(xs >= 0) & (xs <= t[-1])]
+            U = p.propagator_at_arb_t(xs)
+            for x, u in zip(xs, U):
+                g = max(int(np.searchsorted(t, x, side='left')) - 1, 0)
+                H = np.tensordot(p.c_coeffs[:, min(g, len(p.dt) - 1)], p.c_opers, axes=(0, 0))
+                r = expm(-1j*H*(x - t[g])) @ R[g]
+                if not np.max(np.abs(u - r)) <= 1e-8:
+                    probs.append((what, f'propagator at t={x!r}', float(np.max(np.abs(u - r)))))
+                    break
 
     d1 = mk()
     descs = [d1] + [mk(d1) for _ in range(int(rng.integers(1, 3)))]
-    states = [int(rng.integers(0, 4)) for _ in descs]
+    states = [int(rng.integers(0, 5)) for _ in descs]
     kw = [dict(), dict(omega=om), dict(calc_filter_function=True, omega=om),
           dict(calc_pulse_correlation_FF=True, omega=om), dict(calc_filter_function=False)
           ][int(rng.integers(0, 5))]
